@@ -120,6 +120,10 @@ DEFAULT_UNWIND_RULES = [
 
 # per-harness recursion bounds for the recursive representations (name prefix -> rules); the harness data nests at most this deep
 EXTRA_RULES = [
+    # C04: harness types have depth <= 2 (a compound of leaves): the recursive type functions are entered at most twice
+    ("c04_", [(r"^xtype::XType::(bind_in_assignment|common_type|resolve_bind)$", 2, 4),
+              (r"^<xtype::XType as std::cmp::PartialEq>::eq$", 2, 4),
+              (r"^xtype::Bind::mix$", 1, 4)]),
     ("c15_", [(r"^builtin::sequence::XSequence::<.*>::(len|get)$", 1)]),
     ("c16_", [(r"^builtin::generators::XGenerator::<.*>::(_iter|iter|len)", 2), (r"^builtin::sequence::XSequence::<.*>::(len|get)$", 1)]),
     ("c06_", [(r"^builtin::sequence::XSequence::<.*>::(len|get)$", 1)]),
@@ -159,6 +163,11 @@ _crate_cache = {}
 
 
 def run(chk, selections, renderers=None, out=None, timeouts=(300, 1800), mem_gb=12, finish=True):
+    # nothing selected (e.g. --only names another engine's obligation): skip the whole-crate build
+    class _NoCrate:
+        hashes = {}
+    if not specs_for(chk, _NoCrate, selections, 1):
+        return chk.finish(out_of_claim=out or []) if finish else None
     crate = prepare(chk)
     chk.assumptions += [a for a in ASSUMPTIONS if a not in chk.assumptions]
     if not crate.build():
